@@ -1318,3 +1318,88 @@ func c05PureCall(call ssa.CallInstruction, depth int) bool {
 	})
 	return pure
 }
+
+// ---------------------------------------------------------------- boolean facts through helpers
+
+// c05BoolFact describes where a boolean fact is decided directly inside a
+// function: the edges on which it is known true / false, and the values that
+// ARE the fact (e.g. the `loaded` result of LoadOrStore).
+type c05BoolFact func(g *ssa.Function) (te, fe []Edge, isVal func(v ssa.Value) bool)
+
+// c05BoolEdges returns the edges of fn on which the fact is true / false:
+// the direct ones, plus those implied by testing a boolean result of a
+// same-package helper whose value determines the fact (`return !loaded`,
+// `return ok`, `if loaded { return false }; return true`, …).
+func c05BoolEdges(fn *ssa.Function, direct c05BoolFact, depth int) (te, fe []Edge) {
+	te, fe, _ = direct(fn)
+	if depth >= 3 {
+		return
+	}
+	for _, call := range Calls(fn, func(string) bool { return true }) {
+		if _, isDefer := call.(*ssa.Defer); isDefer {
+			continue
+		}
+		h := c05Helper(call, fn)
+		if h == nil {
+			continue
+		}
+		hte, hfe := c05BoolEdges(h, direct, depth+1)
+		_, _, isVal := direct(h)
+		for k := 0; k < h.Signature.Results().Len(); k++ {
+			if !types.Identical(h.Signature.Results().At(k).Type(), types.Typ[types.Bool]) {
+				continue
+			}
+			atoms := RetAtoms(h, k)
+			if len(atoms) == 0 {
+				continue
+			}
+			tT, tF, fT, fF := true, true, true, true // r true => fact true / false; r false => fact true / false
+			for _, a := range atoms {
+				pT := len(hte) > 0 && c05AtomMustPass(a, newCut().Edges(hte...))
+				pF := len(hfe) > 0 && c05AtomMustPass(a, newCut().Edges(hfe...))
+				v := a.Val
+				neg := false
+				if u, isNot := v.(*ssa.UnOp); isNot && u.Op == token.NOT {
+					v, neg = u.X, true
+				}
+				switch k := v.(type) {
+				case *ssa.Const:
+					isTrue := (k.Value != nil && k.Value.String() == "true") != neg
+					if isTrue {
+						tT, tF = tT && pT, tF && pF
+					} else {
+						fT, fF = fT && pT, fF && pF
+					}
+				default:
+					if isVal != nil && isVal(v) {
+						if !neg { // r is the fact
+							tF, fT = tF && pF, fT && pT
+						} else { // r is its negation
+							tT, fF = tT && pT, fF && pF
+						}
+						continue
+					}
+					tT, tF, fT, fF = tT && pT, tF && pF, fT && pT, fF && pF
+				}
+			}
+			rk := ResultOf(call, k)
+			if rk == nil {
+				continue
+			}
+			cte, cfe := BoolTests(fn, Aliases(rk))
+			if tT {
+				te = append(te, cte...)
+			}
+			if fT {
+				te = append(te, cfe...)
+			}
+			if tF {
+				fe = append(fe, cte...)
+			}
+			if fF {
+				fe = append(fe, cfe...)
+			}
+		}
+	}
+	return
+}
